@@ -44,6 +44,7 @@ func runC13(r *an.Run) {
 	positionsReadBeforeStrip(r, "R8-marker-or-context-first-line-same-start")
 	eachChangeOnItsOwn(r, "R9-each-change-is-parsed-and-compiled-on-its-own", false)
 	noTransientBufferRetained(r, "R10-kept-text-is-not-a-window-into-a-read-buffer")
+	bothSidesSeeTheSameDeclarations(r, "R11-both-sides-read-names-by-the-same-declarations")
 }
 
 func c13CommentsSkipped(r *an.Run) {
